@@ -82,7 +82,7 @@ class FT:
         return self.w
 
 
-def replay_mono(h, q, expired_first=False):
+def replay_mono(h, q, expired_first=False, cls="MonoTimer"):
     from hio.help import timing
     ft = FT()
     old = timing.time
@@ -90,7 +90,7 @@ def replay_mono(h, q, expired_first=False):
     out = []
     try:
         ft.w = h[0]["w"] * q
-        t = timing.MonoTimer(duration=h[0]["a"] * q)
+        t = getattr(timing, cls)(duration=h[0]["a"] * q)
         out.append([])
         for e in h[1:]:
             a = None if e["a"] == NONE else e["a"] * q
@@ -170,7 +170,7 @@ def replay_case(ctx, case):
         return [] if real == [e["obs"] for e in h] else ["Tymer reports differ from the exact values: %s" % real]
     try:
         with core.watchdog():
-            real = replay_mono(h, qq)
+            real = replay_mono(h, qq, cls=case.get("cls", "MonoTimer"))
     except (Exception, core.Hang) as ex:
         real = "raised %s: %s" % (type(ex).__name__, ex)
     bad, div = judge_mono(h, real)
@@ -219,6 +219,18 @@ def run(ctx):
                     ctx.violation("MonoTimer: %s" % bad, {"ops": h, "real": real, "q": qq})
                 elif div:
                     divergences.append(div)
+                ws = [e["w"] for e in h if "w" in e and e["op"] in ("read", "start")] if len(h) > 1 else []
+                if all(a <= b for a, b in zip([h[0]["w"]] + ws, ws)):
+                    # the clock never steps back in this behaviour: the plain wall clock Timer must report the same exact values
+                    try:
+                        with core.watchdog():
+                            real2 = replay_mono(h, qq, i % 2 == 1, cls="Timer")
+                    except (Exception, core.Hang) as ex:
+                        real2 = "raised %s: %s" % (type(ex).__name__, ex)
+                    ctx.case(("Timer", str(h)))
+                    bad2, _ = judge_mono(h, real2)
+                    if bad2:
+                        ctx.violation("Timer: %s" % bad2, {"ops": h, "real": real2, "q": qq, "cls": "Timer"})
             elif real != exp:
                 k = next((j for j in range(len(exp)) if not isinstance(real, list) or j >= len(real) or real[j] != exp[j]), 0)
                 ctx.violation("%s: report after op %d (%s) differs: code %s model %s" %
